@@ -350,6 +350,49 @@ fn stalled_answer_histories(cli: &Cli) -> Vec<(String, bool, Vec<(Finding, serde
     })
 }
 
+/// "Not older than the configured expiry": a cookie whose age is exactly the expiry (in the whole
+/// seconds cookies are stamped in) is still good, one second more is not - also for an expiry of 0,
+/// where only a cookie of this very second counts. The wall clock decides, so each case starts early
+/// in a second and is only judged if it was over well within that second.
+fn boundary_histories(cli: &Cli) -> Vec<(String, Vec<(Finding, serde_json::Value)>, serde_json::Value)> {
+    let n = cli.scaled(cli.tier.pick(1, 3));
+    let mut out = vec![];
+    for i in 0..n {
+        for (expiry, age) in [(0u64, 0i64), (0, 1), (60, 60), (60, 61), (3, 3)] {
+            let mut rng = Rng::stream(cli.seed, 28_000 + i * 10 + expiry + age as u64);
+            // wait for the first tenth of a wall-clock second
+            loop {
+                let sub = std::time::SystemTime::now().duration_since(std::time::UNIX_EPOCH).map(|d| d.subsec_millis()).unwrap_or(0);
+                if (30..=150).contains(&sub) {
+                    break;
+                }
+                std::thread::sleep(Duration::from_millis(if sub < 30 { 30 - sub as u64 } else { 1030 - sub as u64 }));
+            }
+            let started = std::time::Instant::now();
+            let ctx = Ctx { intent: Intent::Transfer, server_secret: Some(rng.bytes_between(8, 32)), expiry: Some(expiry), client_addr: mk::random_addr(&mut rng).parse().expect("addr") };
+            let case = make_case(&mut rng, &ctx, Class::Aged(age), false, true);
+            let r = run(&case.sc);
+            let took = started.elapsed();
+            let flag = r.client.enc_request.as_ref().map(|e| e.2);
+            let class = format!("cookie-at-the-boundary/expiry-{expiry}s/age-{age}s");
+            let mut findings = vec![];
+            let expect_skip = age as u64 <= expiry;
+            if took < Duration::from_millis(600) {
+                match (expect_skip, flag) {
+                    (true, Some(true)) => findings.push(Finding { signature: "flag-mismatch/transfer/secret/aged-exactly-the-expiry/should-skip".into(), what: format!("a cookie exactly {age} s old was refused although the configured expiry is {expiry} s (not older than the expiry)"), detail: json!({}) }),
+                    (false, Some(false)) => findings.push(Finding { signature: "flag-mismatch/transfer/secret/aged-one-second-beyond/should-authenticate".into(), what: format!("a cookie {age} s old was accepted although the configured expiry is {expiry} s"), detail: json!({}) }),
+                    (_, None) => findings.push(Finding { signature: format!("no-encryption-request/transfer/secret/aged/{}", r.result.kind()), what: "connection ended before the Encryption Request".into(), detail: json!({}) }),
+                    _ => {}
+                }
+            }
+            let sample = json!({"case": class, "should_authenticate_observed": flag, "judged": took < Duration::from_millis(600), "real_ms": took.as_millis() as u64});
+            let ws = findings.into_iter().map(|f| { let w = witness(&case.sc, &r, f.detail.clone()); (f, w) }).collect();
+            out.push((class, ws, sample));
+        }
+    }
+    out
+}
+
 /// What one connection accepted must not vouch for anything on the next: a genuine cookie is
 /// presented and accepted, then - same process, same listener state - the same tag arrives in front
 /// of an altered body (one bit, or another player's name). Every connection verifies for itself.
@@ -425,6 +468,15 @@ pub fn run_prop(cli: &Cli) -> i32 {
         if report.wants_sample() {
             report.sample(sample);
         }
+        for (fi, w) in findings {
+            report.violation(&fi.signature, &fi.what, w);
+        }
+    }
+    // (before the bulk starts: these want a quiet moment, each takes a few milliseconds)
+    for (class, findings, sample) in boundary_histories(cli) {
+        report.eval(Some(&class));
+        report.count("cookies aged exactly the expiry, or one second more, presented early in a wall-clock second", 1);
+        report.sample(sample);
         for (fi, w) in findings {
             report.violation(&fi.signature, &fi.what, w);
         }
